@@ -68,6 +68,62 @@ def exprswitch_dups():
     return out
 
 
+def iface_switch_dups():
+    """expression switches over an INTERFACE-typed tag: the same constant value may occur once per type; a second
+    case of the same value AND type is a duplicate.  Two or three types per value, typed / untyped / named
+    constants, conversions, every placement of the duplicated pair, across clauses and within one clause list."""
+    out = {}
+    decl = ("type MyInt int\n\ntype Color string\n\nconst K100 = 100\n\nconst KU uint = 100\n\nconst KM MyInt = 100\n\n"
+            "const Red Color = \"red\"\n\nconst S = \"red\"\n\n")
+    families = {
+        "int": {"int": ["100", "int(100)", "K100"], "uint": ["uint(100)", "KU"], "int64": ["int64(100)"],
+                "MyInt": ["MyInt(100)", "KM"], "float64": ["float64(100)"]},
+        "string": {"string": ["\"red\"", "string(\"red\")", "S"], "Color": ["Red", "Color(\"red\")"]},
+    }
+
+    def prog(cases_lines):
+        return (HEAD + decl + "func kind(v interface{}) int {\n\tswitch v {\n" + cases_lines + "\t}\n\treturn 0\n}\n\n"
+                "func main() {\n\tfmt.Println(kind(100), kind(\"red\"))\n}\n")
+    n = 0
+    for fam, types in families.items():
+        tnames = list(types)
+        for x in tnames:
+            for y in tnames:
+                if x == y:
+                    continue
+                # two types: the pair of identical-type cases at every placement around a case of the other type
+                for pat in ("XYY", "YXY", "YYX"):
+                    n += 1
+                    forms, cnt = [], {x: 0, y: 0}
+                    for ch in pat:
+                        t = x if ch == "X" else y
+                        forms.append(types[t][cnt[t] % len(types[t])])
+                        cnt[t] += 1
+                    across = "".join("\tcase %s:\n\t\treturn %d\n" % (f, i + 1) for i, f in enumerate(forms))
+                    out["iface-switch-dup-across:%s:%s-%s:%s" % (fam, x, y, pat)] = prog(across)
+                    if n % 2 == 0:
+                        out["iface-switch-dup-within:%s:%s-%s:%s" % (fam, x, y, pat)] = prog("\tcase %s:\n\t\treturn 1\n" % ", ".join(forms))
+        # three types, the duplicate is of the second or third type
+        if len(tnames) >= 3:
+            for i in range(len(tnames) - 2):
+                a, b, c = tnames[i], tnames[i + 1], tnames[i + 2]
+                for order in ((a, b, c, c), (a, b, c, b), (a, b, b, c), (c, a, b, a), (a, c, b, c)):
+                    cnt = {}
+                    forms = []
+                    for t in order:
+                        forms.append(types[t][cnt.get(t, 0) % len(types[t])])
+                        cnt[t] = cnt.get(t, 0) + 1
+                    key = "iface-switch-dup-3types:%s:%s" % (fam, "-".join(order))
+                    out[key] = prog("".join("\tcase %s:\n\t\treturn %d\n" % (f, k + 1) for k, f in enumerate(forms)))
+    # mixed clause lists and a default in between
+    out["iface-switch-dup-mixed-lists"] = prog("\tcase int(100), \"red\":\n\t\treturn 1\n\tdefault:\n\t\treturn 9\n\tcase uint(100), Red:\n\t\treturn 2\n\tcase KU, 1:\n\t\treturn 3\n")
+    out["iface-switch-dup-named-after-literal"] = prog("\tcase \"red\":\n\t\treturn 1\n\tcase Red:\n\t\treturn 2\n\tcase Color(\"red\"):\n\t\treturn 3\n")
+    # the float LITERAL 100.0 and the conversion float64(100) are the same constant of the same type
+    out["iface-switch-dup-float-forms"] = prog("\tcase 100.0:\n\t\treturn 1\n\tcase float64(100):\n\t\treturn 2\n")
+    out["iface-switch-dup-nil-free"] = prog("\tcase 1.5:\n\t\treturn 1\n\tcase float32(1.5):\n\t\treturn 2\n\tcase float32(1.5):\n\t\treturn 3\n")
+    return out
+
+
 def redeclarations():
     out = {}
     main = "\nfunc main() {\n\tfmt.Println(1)\n}\n"
@@ -231,6 +287,7 @@ KNOWN_UNDIAGNOSED = {
     "type-error:send-wrong-type": "`ch <- \"s\"` on a chan int: \"cannot use \"s\" ... as int value in send\"",
     "type-error:use-type-as-value": "`x := T`: \"T (type) is not an expression\"",
     "type-error:negative-array-len": "`var xs [-1]int` is written as `[...]int`: \"invalid use of [...] array (outside a composite literal)\"",
+    "iface-switch-dup-float-forms": "`case 100.0:` and `case float64(100):` over an interface tag: \"duplicate case float64(100) (constant 100 of type float64) in expression switch\"",
     "type-error:main-with-result": "`func main() int`: \"func main must have no arguments and no return values\"",
 }
 # not near-misses after all (Go accepts them, or the XGo parser rejects them): left out
@@ -241,7 +298,7 @@ NOT_NEAR_MISS = {"switch-dup-across:bool", "switch-dup-within:bool", "type-error
 def all_witnesses():
     """-> (diagnosed: name -> source, undiagnosed: name -> source)"""
     out = {}
-    for fam in (typeswitch_dups, exprswitch_dups, redeclarations, typing_errors):
+    for fam in (typeswitch_dups, exprswitch_dups, iface_switch_dups, redeclarations, typing_errors):
         out.update(fam())
     diag = {k: v for k, v in out.items() if k not in KNOWN_UNDIAGNOSED and k not in NOT_NEAR_MISS}
     und = {k: v for k, v in out.items() if k in KNOWN_UNDIAGNOSED}
